@@ -11,6 +11,7 @@ pub enum Mode {
 pub struct Runner {
     mode: Mode,
     case: Option<Case>,
+    written: Option<usize>,
 }
 
 fn ids(v: &[usize]) -> String {
@@ -30,7 +31,7 @@ fn reads_ok(defs: &[Def], own: usize, e: &Expr, memo: bool) -> bool {
 
 impl Runner {
     pub fn new(mode: Mode) -> Self {
-        Runner { mode, case: None }
+        Runner { mode, case: None, written: None }
     }
 
     fn runs_summary(log: &[RunRec]) -> String {
@@ -58,6 +59,13 @@ impl Runner {
         let g = c.sh.lock().unwrap();
         for (id, d) in g.defs.iter().enumerate() {
             if let Def::Eff(_) = d {
+                // disposed effects need not be current; an effect that has not run since it was paused is
+                // excused (changes made during a pause are documented as not replayed)
+                if let Some(slot) = c.effs.iter().find(|s| s.node == id) {
+                    if !slot.alive || slot.paused || slot.paused_at_runs == Some(g.runs[id]) {
+                        continue;
+                    }
+                }
                 match &g.last[id] {
                     None => return Some(format!("fail never-ran effect {id}")),
                     Some(r) => {
@@ -93,7 +101,7 @@ impl Runner {
                 c.set_mode(true);
                 "ok".into()
             }
-            ["sig", ..] | ["memo", ..] | ["eff", ..] => {
+            ["sig", ..] | ["memo", ..] | ["eff", ..] | ["reff", ..] => {
                 let Some(d) = parse_def(&w) else { return "bad-op".into() };
                 let (n, ok) = {
                     let g = c.sh.lock().unwrap();
@@ -109,18 +117,37 @@ impl Runner {
                 if !ok {
                     return "bad-op".into();
                 }
+                if w[0] == "reff" {
+                    // the body runs synchronously at creation
+                    c.define_kind(d, EffKind::Render);
+                    return match mode {
+                        Mode::C02 => format!("ok {}", self.after(mode, None)),
+                        Mode::C09 => self.after(mode, None),
+                        Mode::C01 => {
+                            self.case.as_ref().unwrap().drain_log();
+                            "ok".into()
+                        }
+                    };
+                }
                 c.define(d);
                 match mode {
-                    Mode::C02 => format!("ok ready={}", ids(&c.ready())),
+                    Mode::C02 => {
+                        hx_common::sched::take_wakes();
+                        format!("ok ready={}", ids(&c.ready()))
+                    }
                     _ => "ok".into(),
                 }
             }
             ["set", id, v] => {
                 let (Ok(id), Ok(v)) = (id.parse::<usize>(), v.parse::<i64>()) else { return "bad-op".into() };
-                if !c.set(id, v) {
+                // who subscribed to this signal directly, and when (for the wake-order oracle)
+                self.written = Some(id);
+                if !self.case.as_ref().unwrap().set(id, v) {
                     return "bad-op".into();
                 }
-                self.after(mode, None)
+                let r = self.after(mode, None);
+                self.written = None;
+                r
             }
             ["read", id] => {
                 let Ok(id) = id.parse::<usize>() else { return "bad-op".into() };
@@ -137,6 +164,13 @@ impl Runner {
                     Mode::C02 => format!("polled={} {}", polled.map(|p| p.to_string()).unwrap_or("none".into()), s),
                     _ => s,
                 }
+            }
+            ["pause", e] | ["resume", e] | ["dispose", e] => {
+                let Ok(e) = e.parse::<usize>() else { return "bad-op".into() };
+                if !c.eff_op(e, w[0]) {
+                    return "bad-op".into();
+                }
+                self.after(mode, None)
             }
             ["idle"] => {
                 sched::run_until_idle(256);
@@ -179,7 +213,56 @@ impl Runner {
                 if let Some(r) = log.iter().find(|r| r.glitch.is_some() && matches!(defs.get(r.node), Some(Def::Eff(b)) if !has_write(b))) {
                     verdict = Some(format!("fail glitch effect {} read {:?}", r.node, r.glitch));
                 }
-                let base = format!("{} ready={}", Self::effect_runs(&defs, &log), ids(&c.ready()));
+                let eff = c.effect_ids();
+                let woke: Vec<usize> = hx_common::sched::take_wakes().into_iter().filter_map(|t| eff.get(t).copied()).collect();
+                // lifecycle oracles: nothing runs after disposal or while paused
+                for r in &log {
+                    if let Some(slot) = c.effs.iter().find(|s| s.node == r.node) {
+                        if !slot.alive {
+                            verdict = Some(format!("fail ran-after-dispose effect {}", r.node));
+                        } else if slot.paused {
+                            verdict = Some(format!("fail ran-while-paused effect {}", r.node));
+                        }
+                    }
+                }
+                // wake order: effects whose ONLY route from the written signal is their own direct
+                // subscription are woken in the order in which they subscribed to it.  (An effect that also
+                // reads a memo depending on the signal can legitimately be woken earlier through that memo's
+                // check propagation; the property's wording does not settle that mixed case, so it is not judged.)
+                if let Some(sig) = self.written {
+                    let g = c.sh.lock().unwrap();
+                    fn reaches(g: &Shared, x: usize, sig: usize, depth: usize) -> bool {
+                        if x == sig {
+                            return true;
+                        }
+                        if depth == 0 {
+                            return false;
+                        }
+                        match (&g.defs[x], &g.last[x]) {
+                            (Def::Memo(_), Some(r)) => r.treads.iter().any(|t| reaches(g, t.0, sig, depth - 1)),
+                            _ => false,
+                        }
+                    }
+                    let mut when: Vec<u64> = vec![];
+                    for e in &woke {
+                        if let Some(Some(last)) = g.last.get(*e) {
+                            let via_memo = last
+                                .treads
+                                .iter()
+                                .any(|t| matches!(g.defs[t.0], Def::Memo(_)) && reaches(&g, t.0, sig, 64));
+                            if via_memo {
+                                continue;
+                            }
+                            if let Some(pos) = last.treads.iter().position(|t| t.0 == sig) {
+                                when.push(last.tclock[pos]);
+                            }
+                        }
+                    }
+                    if when.windows(2).any(|w| w[0] > w[1]) {
+                        verdict = Some(format!("fail wake-order after set {sig}: woke {:?}", woke));
+                    }
+                }
+                let base = format!("{} woke={} ready={}", Self::effect_runs(&defs, &log), ids(&woke), ids(&c.ready()));
                 match verdict {
                     Some(v) => format!("{base} ## {v}"),
                     None => base,
